@@ -16,7 +16,7 @@ func C10(c *Ctx) {
 
 	c.tplC10()
 
-	r.Rule("C10-3", "rejections: lookupManipulatorFunc succeeds only if Results().Len() ≤ 1, a single result is an error, and Params().Len() ≥ 2; buildManipulator succeeds only if ¬(RetError ∧ ¬method error), destination/source types assignable, extra-argument count and types match, imported hooks exported")
+	r.Rule("C10-3", "rejections: lookupManipulatorFunc succeeds only if Results().Len() ≤ 1, a single result is an error, and Params().Len() ≥ 2; buildManipulator succeeds only if ¬(RetError ∧ ¬method error), destination/source assignable to the parameter as declared in the form handed over (pointer or struct), extra-argument count and types match, imported hooks exported")
 	isLen := func(tuple string) func(*core.Term) bool {
 		return func(t *core.Term) bool {
 			return t.IsCallTo("(*go/types.Tuple).Len") && t.Args[0].IsCallTo("(*go/types.Signature)."+tuple)
@@ -42,15 +42,24 @@ func C10(c *Ctx) {
 	}
 	bm := c.MustMethod("C10-3", "/pkg/builder", "FunctionBuilder", "buildManipulator")
 	if bm != nil {
-		side := func(fld, param string) func(*core.Term) bool {
+		// AssignableTo(V, T): V is the type of the value handed over (the method's operand in the form in which it is passed:
+		// a pointer to its struct, or the struct), T the hook's parameter type itself. Stripping a pointer from the parameter
+		// (the form before F74) accepts `*struct{…}` / `*interface{}` parameters for a *Dst operand and rejects an interface
+		// parameter that only the pointer implements.
+		side := func(fld, param string, asPtr bool) func(*core.Term) bool {
 			return func(t *core.Term) bool {
 				if !t.IsCallTo(fnAssignable) {
 					return false
 				}
-				// AssignableTo(V, T): V is the type of the value handed over (the method's operand), T the hook's parameter
 				a0, a1 := t.Args[0], t.Args[1]
-				return a1.Contains(func(s *core.Term) bool { return s.IsField("option.Manipulator." + fld) }) &&
-					a0.Contains(func(s *core.Term) bool { return s.Is("param", param) })
+				if !a1.IsField("option.Manipulator."+fld) || !a0.Contains(func(s *core.Term) bool { return s.Is("param", param) }) {
+					return false
+				}
+				ptrForm := a0.IsCallTo("go/types.NewPointer")
+				if !ptrForm && a0.Contains(func(s *core.Term) bool { return s.IsCallTo("go/types.NewPointer") }) {
+					return false
+				}
+				return ptrForm == asPtr
 			}
 		}
 		var srcP, dstP string
@@ -63,8 +72,8 @@ func C10(c *Ctx) {
 				}
 			}
 		}
-		c.rejects("C10-3", bm, "dst-type", "the destination's type is not checked for assignability TO the hook's first parameter (AssignableTo(operand, parameter); the reverse order accepts a *bytes.Buffer parameter for an io.Writer operand)", c.M(true, side("DstSide", dstP)))
-		c.rejects("C10-3", bm, "src-type", "the source's type is not checked for assignability TO the hook's second parameter (AssignableTo(operand, parameter))", c.M(true, side("SrcSide", srcP)))
+		c.rejects("C10-3", bm, "dst-type", "the destination is not checked, in the form in which it is handed over (pointer to its struct, or the struct), for assignability TO the hook's first parameter as declared (AssignableTo(operand, parameter); the reverse order accepts a *bytes.Buffer parameter for an io.Writer operand, a pointer-stripped parameter accepts *struct{…} for *Dst)", c.M(true, side("DstSide", dstP, true)), c.M(true, side("DstSide", dstP, false)))
+		c.rejects("C10-3", bm, "src-type", "the source is not checked, in the form in which it is handed over, for assignability TO the hook's second parameter as declared (AssignableTo(operand, parameter))", c.M(true, side("SrcSide", srcP, true)), c.M(true, side("SrcSide", srcP, false)))
 		// every assignability judgement in the validation asks operand → parameter
 		nA := 0
 		for _, sc := range c.CallsIn(bm, fnAssignable, false) {
@@ -124,7 +133,7 @@ func C10(c *Ctx) {
 		}
 	}
 
-	r.Rule("C10-4", "hook flags: option.Manipulator{DstSide, SrcSide, AdditionalArgs[i], RetError} = Params().At(0), At(1), At(i+2), (Results().Len()==1 ∧ error); gmodel.Manipulator{IsDstPtr, IsSrcPtr, RetError, Name, Pkg, HasAdditionalArgs} = IsPtr(DstSide), IsPtr(SrcSide), RetError, Func.Name(), LookupName(Func.Pkg().Path()), 0<len(AdditionalArgs); Function.PreProcess/PostProcess come from Opts.PreProcess/PostProcess")
+	r.Rule("C10-4", "hook flags: option.Manipulator{DstSide, SrcSide, AdditionalArgs[i], RetError} = Params().At(0), At(1), At(i+2), (Results().Len()==1 ∧ error); gmodel.Manipulator{IsDstPtr, IsSrcPtr, RetError, Name, Pkg, HasAdditionalArgs} = AssignableTo(*operand struct, DstSide), AssignableTo(*operand struct, SrcSide), RetError, Func.Name(), LookupName(Func.Pkg().Path()), 0<len(AdditionalArgs); Function.PreProcess/PostProcess come from Opts.PreProcess/PostProcess")
 	if lm != nil {
 		if mt := c.MustType("C10-4", "/pkg/option", "Manipulator"); mt != nil {
 			for _, a := range c.Lits(mt) {
@@ -225,9 +234,17 @@ func C10(c *Ctx) {
 		}
 	}
 	if bm != nil {
+		asPtrJudgement := func(fld string) func(*core.Term) bool {
+			return func(t *core.Term) bool {
+				return t.IsCallTo(fnAssignable) && t.Args[1].IsField("option.Manipulator."+fld) && t.Args[0].IsCallTo("go/types.NewPointer") &&
+					t.Args[0].Contains(func(s *core.Term) bool { return s.Kind == "param" && s.Name != "m" })
+			}
+		}
 		want := map[string]func(*core.Term) bool{
-			"IsDstPtr": func(t *core.Term) bool { return t.IsCallTo(fnIsPtr) && t.Args[0].IsField("option.Manipulator.DstSide") },
-			"IsSrcPtr": func(t *core.Term) bool { return t.IsCallTo(fnIsPtr) && t.Args[0].IsField("option.Manipulator.SrcSide") },
+			// the flag that makes the emitter hand over a pointer is the judgement that a pointer to the operand's struct fits the
+			// parameter (IsPtr(parameter), the form before F74, hands a copy to an interface parameter and `*dst` to `*interface{}`)
+			"IsDstPtr": asPtrJudgement("DstSide"),
+			"IsSrcPtr": asPtrJudgement("SrcSide"),
 			"RetError": func(t *core.Term) bool { return t.IsField("option.Manipulator.RetError") },
 			"Name": func(t *core.Term) bool {
 				return t.Kind == "invoke" && t.Name == "(types.Object).Name" && t.Args[0].IsField("option.Manipulator.Func")
